@@ -168,8 +168,51 @@ def nest_subset():
         yield label, nodes
 
 
+def entity_programs():
+    """the same program with an entity reference / with its dtml-var
+    equivalent, in every position relative to a block: (label, A, B)"""
+    forms = [(['ent', 'x', ['html_quote']],
+              ['var', N('x'), [['html_quote', None]]]),
+             (['ent', 'x', ['upper', 'url_quote']],
+              ['var', N('x'), [['upper', None], ['url_quote', None]]])]
+    for wi, w in enumerate(BLOCK_WRAPPERS):
+        for fi, (ent, var) in enumerate(forms):
+            for pos in ('before', 'inside', 'after', 'inside+after',
+                        'after-two'):
+                out = []
+                for x in (ent, var):
+                    inner = [T('i'), x] if 'inside' in pos else [T('i')]
+                    blk = w(inner)
+                    if pos == 'before':
+                        nodes = [x, blk, T('t')]
+                    elif pos == 'inside':
+                        nodes = [blk, T('t')]
+                    elif pos == 'after-two':
+                        nodes = [blk, w([T('j')]), x, T('t'), x]
+                    else:
+                        nodes = [blk, x, T('t')]
+                    out.append(nodes)
+                yield 'entity-ctx:%d:%d:%s' % (wi, fi, pos), out[0], out[1]
+
+
+def elseblk_programs():
+    """the deprecated stand-alone else block, alone and inside blocks whose
+    own name it is a (word or mid-word) prefix of"""
+    for ref in (N('x'), N('u'), E('y')):
+        yield 'elseblk', [T('a'), ['elseblk', ref, BODY], T('b')]
+    for outer, inner in (('xy', 'x'), ('x', 'x'), ('yx', 'x'), ('x', 'xy')):
+        yield 'elseblk', [['if', [[N(outer), [
+            T('T'), ['elseblk', N(inner), [T('U')]], T('V')]]], None]]
+        yield 'elseblk', [['in', N('seq'), [
+            T('T'), ['elseblk', N(inner), [T('U')]], T('V')], None, []]]
+        yield 'elseblk', [['unless', N(outer), [
+            T('T'), ['elseblk', N(inner), [T('U')]], T('V')]]]
+
+
 def programs(tier):
     for label, nodes in simple_programs():
+        yield label, nodes
+    for label, nodes in elseblk_programs():
         yield label, nodes
     for wi, w in enumerate(BLOCK_WRAPPERS):
         for label, nodes in nest_subset():
@@ -201,6 +244,8 @@ def styles(tier):
 def cases(tier):
     for i, (label, nodes) in enumerate(programs(tier)):
         yield {'label': label, 'nodes': nodes, 'tier': tier}
+    for label, a, b in entity_programs():
+        yield {'label': label, 'nodes': b, 'entity_nodes': a, 'tier': tier}
     # entity equivalences
     for mods in [['html_quote']] + [[m] for m in MODS] + \
             [list(p) for p in itertools.permutations(MODS[5:10], 2)]:
@@ -215,8 +260,9 @@ NAMESPACES = [
      'empty': ['seq', 'list', []],
      'obj': ['obj', {'oa': ['lit', 'OA']}], 'mp': ['map', {'oa': ['lit', 'MA']}],
      'sk': ['lit', 'k'], 'rv': ['lit', 1], 'qs': ['lit', 2],
+     'xy': ['lit', 1], 'yx': ['lit', 0],
      'boom': ['raiser', 'boom', 'HB', 'bm'], 'HAc': ['exc', 'HA']},
-    {'x': ['lit', ''], 'y': ['probe', 'y', ['lit', 'Y']],
+    {'x': ['lit', ''], 'y': ['probe', 'y', ['lit', 'Y']], 'xy': ['lit', 0],
      'seq': ['seq', 'tuple', [['map', {'k': ['lit', 1], 'j': ['lit', 1]}]]],
      'empty': ['seq', 'list', []],
      'obj': ['obj', {}], 'mp': ['map', {}],
@@ -299,6 +345,28 @@ def run(case):
                          'base_result': bo, 'variant_result': o},
                         dict(case, only=[sx, style]))
                     break
+    if 'entity_nodes' in case:
+        # the same program written with &dtml-...; instead of dtml-var
+        for sx in ('dtml', 'ssi'):
+            for style in ({}, {'eol': 1}, {'ws': 1, 'endarg': 1}):
+                src, t, fp = compile_variant(case['entity_nodes'], sx, style)
+                pairs += 1
+                if fp != base_fp:
+                    res.violate('same-program', 'compiled:entity-in-context',
+                                {'base': base_src, 'variant': src,
+                                 'difference': (first_difference(
+                                     base_fp, fp) or '')[:400]})
+                    continue
+                if t is None:
+                    continue
+                for ns, bo in zip(NAMESPACES, base_obs):
+                    o = observe(t, ns)
+                    if o != bo:
+                        res.violate('same-rendering',
+                                    'rendered:entity-in-context',
+                                    {'base': base_src, 'variant': src,
+                                     'base_result': bo, 'variant_result': o})
+                        break
     res.evals = pairs
     res.count('programs', 1)
     res.count('pairs', pairs)
